@@ -1,12 +1,13 @@
 (* C08 -- A crash at any instant leaves a repository that reopens consistent.
-   Statements only; proofs in Proofs/CrashProofsA.v, CrashProofsB.v, CrashProofsC.v; model in Model/Crash.v.
+   Statements only; proofs in Proofs/CrashProofsA.v .. CrashProofsE.v; model in Model/Crash.v (emptyTrash as repaired by
+   /repo e615ec5: records rows and trash rows deleted in ONE transaction).
 
    `crash s p k` = the first k steps of plan p from state s, then recovery (the uncommitted transaction is dropped).
    Every theorem quantifies over ALL states without an open transaction (hence all states reached by any history,
    fault-free or crashed and recovered), ALL operations with ALL arguments, and ALL crash indices k (k beyond the length of
    the plan = the operation completed). *)
 From Coq Require Import NArith List Bool.
-From V Require Import Model.Crash Proofs.CrashProofsA Proofs.CrashProofsB Proofs.CrashProofsC.
+From V Require Import Model.Crash Proofs.CrashProofsA Proofs.CrashProofsB Proofs.CrashProofsC Proofs.CrashProofsD Proofs.CrashProofsE.
 Import ListNotations.
 Open Scope N_scope.
 
@@ -64,43 +65,125 @@ Theorem uncommitted_rows_invisible : forall body s k,
 Proof. intros. unfold crash, recover. simpl. apply txn_block_cdb_prefix; assumption. Qed.
 Print Assumptions uncommitted_rows_invisible.
 
-(* 4. Emptying the trash, run to completion from ANY recovered state (in particular after any crash of any removal),
-      completes every pending deletion that still has its records row: records gone, trash row gone, artifact gone. *)
-Theorem rerun_completes_partial : forall u ord d,
-  ovl u = None -> mem d (d_trash (cdb u)) = true -> mem d (d_recs (cdb u)) = true ->
-  let u' := run_op u (EmptyTrash ord) in
-  knows u' d = false /\ mem d (d_trash (cdb u')) = false /\ fget (Final d) (fs u') = None
-  /\ mem d (d_loc (cdb u')) = mem d (d_loc (cdb u)) /\ recorded u' d = recorded u d.
-Proof. exact emptytrash_clears_l. Qed.
-Print Assumptions rerun_completes_partial.
+(* ... and a completed put / ingest holds the complete artifact with the content it was given *)
+Theorem put_completes : forall s d v, ovl s = None -> insert_ok (cdb s) [d] = true ->
+  let s' := run_op s (Put d v) in
+  recorded s' d = true /\ knows s' d = true /\ mem d (d_loc (cdb s')) = true /\ get s' d = GotValue v
+  /\ artifact s' d = true.
+Proof. exact put_completes_l. Qed.
+Print Assumptions put_completes.
 
-(* REFUTED at full strength: what is missing above is "a trash row always has its records row".  The code deletes the
-   records rows and the trash rows in two separate transactions and only looks at trash rows that still have records:
-   a death between the two commits leaves a trash row that neither a re-run of the removal nor emptyTrash ever removes.
-   Replayed on the implementation: known finding K-C08-emptytrash-two-commits. *)
-Theorem rerun_completes_refuted : exists h o k,
+Theorem ingest_copy_completes : forall s d v, ovl s = None -> insert_ok (cdb s) [d] = true ->
+  fget (Ext d) (fs s) = Some (Complete v) ->
+  let s' := run_op s (IngestCopy d) in
+  recorded s' d = true /\ knows s' d = true /\ mem d (d_loc (cdb s')) = true /\ get s' d = GotValue v
+  /\ artifact s' d = true.
+Proof. intros s d v O OK E. cbn zeta. rewrite (run_ingest_copy_state s d v O OK E). apply put_completes_l; assumption. Qed.
+Print Assumptions ingest_copy_completes.
+
+Theorem ingest_move_completes : forall s d v, ovl s = None -> insert_ok (cdb s) [d] = true ->
+  fget (Ext d) (fs s) = Some (Complete v) ->
+  let s' := run_op s (IngestMove d) in
+  recorded s' d = true /\ knows s' d = true /\ mem d (d_loc (cdb s')) = true /\ get s' d = GotValue v
+  /\ fget (Ext d) (fs s') = None.
+Proof. exact ingest_move_completes_l. Qed.
+Print Assumptions ingest_move_completes.
+
+(* goodness of a concrete state: compute its rows, then decide each clause by cases on the id *)
+Ltac concrete_good :=
+  split; [reflexivity|]; unfold good_db;
+  match goal with |- context [cdb ?s] => let b := eval vm_compute in (cdb s) in change (cdb s) with b end;
+  cbn [d_runs d_ds d_loc d_trash d_recs mem];
+  repeat split; intros d; repeat match goal with |- context [d =? ?n] => destruct (N.eqb_spec d n); [subst d; simpl|] end;
+  intros; try discriminate; auto; try tauto; try (intuition congruence).
+
+(* 4. The datastore-bridge invariant `good` (every pending deletion still has its records row; located datasets have
+      records and a registry row; located and pending exclude each other; no unowned records) holds initially and
+      survives EVERY crash of EVERY removal (pruneDatasets purge / unstore, Datastore.trash, removeRuns, emptyTrash). *)
+Theorem crash_of_removal_keeps_invariant : forall s o k, good s -> is_removal o = true -> good (crash s (plan s o) k).
+Proof. exact good_crash_removal_l. Qed.
+Print Assumptions crash_of_removal_keeps_invariant.
+
+Theorem invariant_initially : good init.
+Proof. exact good_init. Qed.
+Print Assumptions invariant_initially.
+
+(* 5. FULL STRENGTH (since /repo e615ec5): from the crash state u of ANY removal at ANY index, started in any good state,
+      (a) emptyTrash alone leaves the trash table EMPTY and everything that was pending gone from the datastore, artifact
+          included;
+      (b) re-running the removal and then emptying the trash leaves the trash table EMPTY and every target gone from the
+          datastore -- no records, no location row, no trash row, no artifact flag; its artifact file deleted if the
+          datastore still knew it -- and from the registry for purge / removeRuns.
+      `datastore_gone s d` = knows s d = false /\ no location row /\ no trash row /\ artifact s d = false. *)
+Theorem rerun_completes : forall s o k ord2, good s -> is_removal o = true ->
+  let u := crash s (plan s o) k in
+  good u
+  /\ (let u1 := run_op u (EmptyTrash ord2) in
+      (forall x, mem x (d_trash (cdb u1)) = false)
+      /\ (forall d, mem d (d_trash (cdb u)) = true -> datastore_gone u1 d /\ fget (Final d) (fs u1) = None))
+  /\ (let u2 := run_op (run_op u o) (EmptyTrash ord2) in
+      (forall x, mem x (d_trash (cdb u2)) = false)
+      /\ (forall d, rerun_target u o d = true ->
+                    datastore_gone u2 d /\ (purges o = true -> recorded u2 d = false)
+                    /\ (knows (run_op u o) d = true -> fget (Final d) (fs u2) = None))).
+Proof. exact rerun_completes_l. Qed.
+Print Assumptions rerun_completes.
+
+(* the removals themselves, run to completion from any good state (e.g. any crash state above) *)
+Theorem prune_completes : forall u l ord d, good u -> mem d l = true ->
+  let u' := run_op u (Prune l ord) in
+  recorded u' d = false /\ datastore_gone u' d /\ (knows u d = true -> fget (Final d) (fs u') = None).
+Proof. exact prune_completes_l. Qed.
+Print Assumptions prune_completes.
+
+Theorem unstore_completes : forall u l ord d, good u -> mem d l = true ->
+  let u' := run_op u (Unstore l ord) in
+  datastore_gone u' d /\ (knows u d = true -> fget (Final d) (fs u') = None) /\ recorded u' d = recorded u d.
+Proof. exact unstore_completes_l. Qed.
+Print Assumptions unstore_completes.
+
+Theorem removeruns_completes : forall u r ord d, good u -> mem r (d_runs (cdb u)) = true -> run_of d = r ->
+  let u' := run_op u (RemoveRuns r ord) in
+  recorded u' d = false /\ datastore_gone u' d /\ (knows u d = true -> fget (Final d) (fs u') = None)
+  /\ mem r (d_runs (cdb u')) = false.
+Proof. exact removeruns_completes_l. Qed.
+Print Assumptions removeruns_completes.
+
+(* REFUTED WITHOUT THE FIX: with the two separately committed deletes of emptyTrash (the code before e615ec5,
+   `plan_two_commits`) a death between the two commits leaves a trash row without records -- the invariant is broken --
+   and neither the old nor the repaired re-run / emptyTrash ever removes it.  If the two-commit order returns, the
+   correspondence and the oracle (signature "<op>:trash-row-survives:...") report it; finding F-C08-emptytrash-two-commits. *)
+Theorem rerun_completes_refuted_without_fix : exists h o k,
   let s := run init h in
-  let s' := crash s (plan s o) k in
-  let u := run_op (run_op s' o) (EmptyTrash []) in
-  is_target s o 0 = true /\ mem 0 (d_trash (cdb u)) = true /\ mem 0 (d_trash (cdb (run_op u (EmptyTrash [])))) = true.
-Proof. exists [Put 0 1; Put 1 2], (Unstore [0] []), 8%nat. vm_compute. repeat split. Qed.
-Print Assumptions rerun_completes_refuted.
+  let s' := crash s (plan_two_commits s o) k in
+  good s /\ is_removal o = true /\ ~ good s'
+  /\ mem 0 (d_trash (cdb (run_op_two_commits (run_op_two_commits s' o) (EmptyTrash [])))) = true
+  /\ mem 0 (d_trash (cdb (run_op (run_op s' o) (EmptyTrash [])))) = true.
+Proof.
+  exists [Put 0 1; Put 1 2], (Unstore [0] []), 8%nat. cbn zeta.
+  split; [|split; [reflexivity|split; [|split; vm_compute; reflexivity]]].
+  - concrete_good.
+  - intros [_ (G1 & _)]. specialize (G1 0). vm_compute in G1. specialize (G1 eq_refl). discriminate.
+Qed.
+Print Assumptions rerun_completes_refuted_without_fix.
 
-(* the window is exactly the two steps between the commits (same witness, every crash index) *)
-Theorem stale_trash_row_only_between_the_commits :
+(* without the fix the window is exactly the three indices between the two commits; with the fix there is none *)
+Theorem stale_trash_row_window :
   let s := run init [Put 0 1; Put 1 2] in
   let o := Unstore [0] [] in
-  forallb (fun k => let u := run_op (run_op (crash s (plan s o) k) o) (EmptyTrash []) in
+  forallb (fun k => let u := run_op (run_op (crash s (plan_two_commits s o) k) o) (EmptyTrash []) in
                     Bool.eqb (mem 0 (d_trash (cdb u))) (existsb (Nat.eqb k) [8; 9; 10]%nat))
+          (seq 0 (S (length (plan_two_commits s o)))) = true
+  /\ forallb (fun k => let u := run_op (run_op (crash s (plan s o) k) o) (EmptyTrash []) in negb (mem 0 (d_trash (cdb u))))
           (seq 0 (S (length (plan s o)))) = true.
-Proof. vm_compute. reflexivity. Qed.
-Print Assumptions stale_trash_row_only_between_the_commits.
+Proof. split; vm_compute; reflexivity. Qed.
+Print Assumptions stale_trash_row_window.
 
 (* ---- non-vacuity: the hypotheses are met by reachable, non-trivial states ------------------------------------ *)
 Example ex_bystander :
   let s := run init [Put 0 1; Put 1 2; IngestMove 4] in
   ovl s = None /\ is_target s (Prune [0; 4] []) 1 = false /\ mem 1 (d_trash (cdb s)) = false /\ get s 1 = GotValue 2
-  /\ length (plan s (Prune [0; 4] [])) = 13%nat.
+  /\ length (plan s (Prune [0; 4] [])) = 11%nat.
 Proof. vm_compute. repeat split. Qed.
 
 Example ex_insertion :
@@ -120,5 +203,11 @@ Proof. vm_compute. reflexivity. Qed.
 Example ex_pending_deletion_completed :
   let s := run init [Put 0 1; Put 1 2] in
   let u := crash s (plan s (Prune [0] [])) 6 in        (* died after the file was deleted, before the records were *)
-  mem 0 (d_trash (cdb u)) = true /\ mem 0 (d_recs (cdb u)) = true /\ knows (run_op u (EmptyTrash [])) 0 = false.
+  mem 0 (d_trash (cdb u)) = true /\ mem 0 (d_recs (cdb u)) = true /\ knows (run_op u (EmptyTrash [])) 0 = false
+  /\ rerun_target u (Prune [0] []) 0 = true /\ is_removal (Prune [0] []) = true.
 Proof. vm_compute. repeat split. Qed.
+
+Example ex_good_reachable : good (run init [Put 0 1; Put 1 2; IngestMove 4; Trash [1]]).
+Proof.
+  concrete_good.
+Qed.
